@@ -288,6 +288,41 @@ theorem index_sound {D : Type} (ops : DictOps D) (hl : ops.Lawful) (adapters : L
   rw [hgetD] at h6
   exact ⟨a, hai, h1, h2, h3, h4, h5, h6, hk, hd⟩
 
+/-- **Per-adapter indel settings** (`;noindels` on some adapters of one index): `index_sound` uses each adapter's own
+    flag. In particular a match reported for an adapter that does not allow indels removes exactly as many characters as
+    the adapter is long, and `errors` is their Hamming distance — whatever the other adapters of the index allow. -/
+theorem index_noindels_adapter_is_hamming {D : Type} (ops : DictOps D) (hl : ops.Lawful) (adapters : List Adapter)
+    (isPrefix : Bool) (read : Bytes) (hacgt : ∀ a ∈ adapters, IsACGT a.seq) (hN : (78 : UInt8) ∉ read.map asciiUpper)
+    (htol : isPrefix = false → ∀ a ∈ adapters, adapterK a < a.seq.length)
+    (mt : IndexMatch) (h : indexMatchTo ops (makeIndex ops adapters isPrefix) read = some mt)
+    (a : Adapter) (ha : adapters[mt.adapter]? = some a) (hni : a.indels = false) :
+    (mt.rstop : Int) - mt.rstart = a.seq.length ∧
+    Spec.hamming (· == ·)
+      (if isPrefix then (read.map asciiUpper).take mt.rstop else (read.map asciiUpper).drop mt.rstart.toNat) a.seq
+      = mt.errors ∧ mt.errors ≤ adapterK a := by
+  obtain ⟨a', ha', h0, h1, h2, h3, _, _, hk, hd⟩ := index_sound ops hl adapters isPrefix read hacgt hN htol mt h
+  rw [ha] at ha'
+  obtain rfl := Option.some.inj ha'
+  simp only [hni, Bool.false_eq_true, if_false] at hd
+  refine ⟨?_, hd.2, hk⟩
+  have hlen := hd.1
+  cases isPrefix
+  · simp only [Bool.false_eq_true, if_false, List.length_drop, List.length_map] at hlen h3
+    omega
+  · simp only [if_true, List.length_take, List.length_map] at hlen h3
+    omega
+
+/-- `-g "^ACGTACGTAC;noindels" -g "^TTGCAATTGC"` (one error each), read `ACGTACCGTACACACCGTTTT`: the first adapter would
+    fit with one insertion, but it does not allow indels — nothing is reported (an index that built the edit environment
+    for every adapter would remove 11 characters) -/
+example : indexMatchTo alistOps (makeIndex alistOps
+      [mkA .prefix [65,67,71,84,65,67,71,84,65,67] 1 false, mkA .prefix [84,84,71,67,65,65,84,84,71,67] 1 true] true)
+      [65,67,71,84,65,67,67,71,84,65,67,65,67,65,67,67,71,84,84,84,84] = none := by decide +kernel
+/-- … while the second adapter of the same index does match with a deletion (`TTGCATTGC…`) -/
+example : indexMatchTo alistOps (makeIndex alistOps
+      [mkA .prefix [65,67,71,84,65,67,71,84,65,67] 1 false, mkA .prefix [84,84,71,67,65,65,84,84,71,67] 1 true] true)
+      [84,84,71,67,65,84,84,71,67,65,65,65] = some ⟨1, 0, 10, 0, 9, 9, 1⟩ := by decide +kernel
+
 /-- **Coordinates inside the read for every read — with or without `N`, of any length**: `0 ≤ rstart ≤ rstop ≤ n` and
     the match is anchored. For reads with `N` the match length is that of the re-alignment by the adapter's own
     `match_to`; `RealignInside adapters` is the C01 fact that such a re-alignment lies inside the string it was given
